@@ -213,6 +213,39 @@ def hostile_prelude(rec=None):
         rec.count("hostile_prelude_runs")
 
 
+def toplevel_probes(rec, prop, when):
+    """a handful of checks made OUTSIDE every context whose answers are known outright; asked after the hostile
+    prelude and again after a shard's workload (checks made inside contexts start from a clean slate and cannot see
+    per-thread state that was left behind)"""
+    import typing
+
+    import jaxtyping
+    from jaxtyping import Float, Int, PyTree, Shaped
+
+    N = np.ndarray
+    probes = [
+        ("int32 array vs Float[N, '...']", lambda: isinstance(np_array((2,), "int32"), Float[N, "..."]), False),
+        ("rank-2 array vs Float[N, 'a']", lambda: isinstance(np_array((2, 3)), Float[N, "a"]), False),
+        ("(2,3) vs Shaped[N, 'a a']", lambda: isinstance(np_array((2, 3)), Shaped[N, "a a"]), False),
+        ("(3,3) vs Shaped[N, 'a a']", lambda: isinstance(np_array((3, 3)), Shaped[N, "a a"]), True),
+        ("int64 array vs Int[N, '...']", lambda: isinstance(np.zeros(2, dtype="int64"), Int[N, "..."]), True),
+        ("[i32(2)] vs PyTree[Float[N, 'a']]", lambda: isinstance([np_array((2,), "int32")], PyTree[Float[N, "a"]]), False),
+        ("'?n' outside a PyTree", lambda: isinstance(np_array((2,)), Shaped[N, "?n"]), "AnnotationError"),
+        ("unbound name in 'q+1'", lambda: isinstance(np_array((2,)), Shaped[N, "q+1"]), "AnnotationError"),
+        ("print_bindings() at top level", lambda: raw_transcript().strip(), ""),
+    ]
+    for what, thunk, want in probes:
+        try:
+            got = thunk()
+        except Exception as e:  # noqa
+            got = type(e).__name__
+        rec.count("toplevel_probes")
+        if got != want:
+            rec.violation("toplevel-state", {"probe": what, "when": when}, f"outside every context, {when}: {what} -> {got!r}, expected {want!r}", mechanism="toplevel-probe-" + when.split(" ")[0] + "-deviates")
+            return False
+    return True
+
+
 _jax_cache = {}
 
 
